@@ -136,46 +136,40 @@ theorem C17_bad_param_rejected_partial (m : Method) (hm : m ∈ table) (d : Doc)
 def C17_clean_faults_statement : Prop :=
   ∀ m ∈ table, ∀ (s : State) (a : Args) (e : String), (run cr m s a).2 ≠ .internal e
 
-def witnessNoMaster : State := { fsm := .operation, isMaster := false, masterSet := false }
-
-/-- FALSE on the current code: `restart` on a non-Master instance in OPERATION whose Master has just been reset lets
-    the `RuntimeError` of `FiniteStateMachine.on_restart` escape (`shutdown`: `ValueError`);
-    `get_network_info('<nick identifier>')` raises `KeyError`. -/
+/-- FALSE on the current code: `start_args('group:*')` — the group namespec resolves to no process and `process.namespec`
+    raises `AttributeError`, in every Supvisors state. -/
 theorem C17_clean_faults_refuted : ¬ C17_clean_faults_statement := by
   intro h
-  have hw : ∃ m ∈ table, m.name = "restart" ∧ (run cr m witnessNoMaster {}).2 = .internal "RuntimeError" := by decide
+  have hw : ∃ m ∈ table, m.name = "start_args" ∧ (run cr m {} { isGroup := true }).2 = .internal "AttributeError" := by
+    decide
   obtain ⟨m, hm, _, hr⟩ := hw
-  exact h m hm witnessNoMaster {} "RuntimeError" hr
+  exact h m hm {} { isGroup := true } "AttributeError" hr
 
-theorem C17_clean_faults_refuted_shutdown :
-    ∃ m ∈ table, m.name = "shutdown" ∧ (run cr m witnessNoMaster {}).2 = .internal "ValueError" := by decide
+/-- every effect that raises without Master (`fsm.on_restart`, `fsm.on_shutdown`) is dominated by the check that a
+    Master is known, and no method indexes a map with a raw parameter -/
+theorem C17_crash_guards : ∀ m ∈ table, crashGuarded cr true false m.steps = true := by decide
 
-theorem C17_clean_faults_refuted_network_info :
-    ∃ m ∈ table, m.name = "get_network_info" ∧ (run cr m {} { instExact := false }).2 = .internal "KeyError" := by decide
+/-- it holds for every method, every state (Master known or not, instance Master or not) and every parameter valuation
+    whose namespec is not a group namespec -/
+theorem C17_clean_faults_partial (m : Method) (hm : m ∈ table) (s : State) (a : Args) (e : String)
+    (hgroup : a.isGroup = false) : (run cr m s a).2 ≠ .internal e :=
+  no_internal_of_guarded cr true a e (fun _ => hgroup) m.steps false s (C17_crash_guards m hm) (by simp)
 
-/-- `start_args('group:*')`: the group namespec resolves to no process and `process.namespec` raises `AttributeError` -/
-theorem C17_clean_faults_refuted_start_args :
-    ∃ m ∈ table, m.name = "start_args" ∧ (run cr m {} { isGroup := true }).2 = .internal "AttributeError" := by decide
-
-/-- it holds whenever a Master is known (or the instance is the Master), the instance identifier is the exact one and
-    the namespec is not a group namespec -/
-theorem C17_clean_faults_partial (m : Method) (_hm : m ∈ table) (s : State) (a : Args) (e : String)
-    (hmaster : s.isMaster = true ∨ s.masterSet = true) (hexact : a.instExact = true) (hgroup : a.isGroup = false) :
-    (run cr m s a).2 ≠ .internal e :=
-  no_internal_of_master cr m.steps s a e hmaster hexact hgroup
-
-/-- and for every method but `restart`, `shutdown`, `get_network_info`, `start_args`, unconditionally -/
-theorem C17_clean_faults_partial_methods (m : Method) (hm : m ∈ table)
-    (hname : m.name ≠ "restart" ∧ m.name ≠ "shutdown" ∧ m.name ≠ "get_network_info" ∧ m.name ≠ "start_args")
+/-- and for every method but `start_args`, unconditionally — in particular `restart` / `shutdown` without Master and
+    `get_network_info` with a nick identifier (repaired in /repo: 83a88a0, 3678d4d) -/
+theorem C17_clean_faults_partial_methods (m : Method) (hm : m ∈ table) (hname : m.name ≠ "start_args")
     (s : State) (a : Args) (e : String) : (run cr m s a).2 ≠ .internal e := by
-  have h : ∀ m ∈ table, (m.name == "restart" || m.name == "shutdown" || m.name == "get_network_info"
-      || m.name == "start_args" || crashFree cr m.steps) = true := by decide
+  have h : ∀ m ∈ table, (m.name == "start_args" || crashGuarded cr false false m.steps) = true := by decide
   have h2 := h m hm
-  have : crashFree cr m.steps = true := by
-    rcases hname with ⟨h1, h3, h4, h5⟩
-    simp [h1, h3, h4, h5] at h2
+  have h3 : crashGuarded cr false false m.steps = true := by
+    simp [hname] at h2
     exact h2
-  exact no_internal_of_crashFree cr m.steps this s a e
+  exact no_internal_of_guarded cr false a e (by simp) m.steps false s h3 (by simp)
+
+/-- `restart` on a non-Master instance that knows no Master (the Master was just reset): BAD_SUPVISORS_STATE, no-op -/
+theorem C17_restart_without_master : ∀ m ∈ table, (m.name = "restart" ∨ m.name = "shutdown") →
+    run cr m { fsm := .operation, isMaster := false, masterSet := false } {}
+      = ({ fsm := .operation, isMaster := false, masterSet := false }, .fault .badSupvisorsState) := by decide
 
 /-! ## Non-vacuity: the hypotheses are satisfiable by non-trivial concrete values -/
 
@@ -198,6 +192,14 @@ example : ∃ m ∈ table, m.name = "start_process"
     ∧ statePasses m.steps { fsm := .operation, masterSet := true } { stratOk := false, nameOk := false } = true
     ∧ (docOf m.name).any (fun d => wellFormed d { stratOk := false, nameOk := false }
         && d.params.any (fun k => !({ stratOk := false, nameOk := false } : Args).flag k)) = true := by decide
+
+/-- hypotheses of `C17_served_in_documented_states` on non-trivial calls: every condition on state and modes passes for
+    `end_sync` in SYNCHRONIZATION (USER option, no Master yet) and for `restart_sequence` in OPERATION without jobs -/
+example : ∃ m ∈ table, m.name = "end_sync"
+    ∧ statePasses m.steps { fsm := .synchronization, userOpt := true } {} = true := by decide
+example : ∃ m ∈ table, m.name = "restart_sequence"
+    ∧ statePasses m.steps { fsm := .operation, isMaster := true, masterSet := true } {} = true
+    ∧ statePasses m.steps { fsm := .operation, isMaster := true, masterSet := true, jobs := true } {} = false := by decide
 
 /-- `end_sync` is served in SYNCHRONIZATION with the USER option and no Master -/
 example : ∃ m ∈ table, m.name = "end_sync"
